@@ -303,11 +303,13 @@ Proof.
   - apply keeps_seqL. apply Forall_forall. intros f Hf. apply in_flat_map in Hf as (o & Ho & Hf).
     assert (K1 : key_in (o, cHenc) K = true) by (apply HK; apply in_flat_map; exists o; cbn; auto).
     assert (K2 : key_in (o, cEnc) K = true) by (apply HK; apply in_flat_map; exists o; cbn; auto).
-    destruct Hf as [<-|[<-|[]]].
+    assert (K3 : key_in (o, cBuf) K = true) by (apply HK; apply in_flat_map; exists o; cbn; auto).
+    destruct Hf as [<-|[<-|[<-|[]]]].
     + split.
       * apply (local_ok_dep (fun y => realloc (o, cHenc) (map CopyOf (blk (snd y) (p, cEnc))))). intros; apply local_ok_realloc.
       * apply (keeps_dep K (fun y => realloc (o, cHenc) (map CopyOf (blk (snd y) (p, cEnc))))). intros; apply keeps_realloc; auto.
     + split; [apply local_ok_realloc|apply keeps_realloc; auto].
+    + split; [apply local_ok_wfresh|apply keeps_wfresh; auto].
   - apply (keeps_dep K (fun y => realloc kExt (map (fun _ => FreshV) (blk (snd y) kExt)))). intros; apply keeps_realloc.
     apply HK. cbn; auto.
 Qed.
@@ -413,4 +415,130 @@ Proof.
   - eapply same_meta_trans; [|apply Hmeta].
     eapply same_meta_trans; [|apply (fix_refs_meta (snd x1))] .
     eapply same_meta_trans; [|exact H4]. unfold x0. cbn [snd]. repeat split.
+Qed.
+
+(* ---------------------------------------------------------------------------------------------- *)
+(* The exception the property allows, made precise: with the DQN hook the copy's target network holds the
+   content of the (copy's = parent's) online network *)
+
+Lemma getb_parts (g g0 : loc -> cval) k : forall bs bs0 : blocks,
+  map fst bs = map fst bs0 ->
+  map (fun kv => map g (snd kv)) bs = map (fun kv => map g0 (snd kv)) bs0 ->
+  map g (getb k bs) = map g0 (getb k bs0).
+Proof.
+  induction bs as [|kv r IH]; intros [|kv0 r0] HK HC; cbn in *; try discriminate; auto.
+  injection HK as K1 K2. injection HC as C1 C2. rewrite K1. destruct (key_eqb k (fst kv0)); auto.
+Qed.
+
+Lemma getb_NoDup k bs : NoDup (locs_of bs) -> NoDup (getb k bs).
+Proof.
+  unfold locs_of. induction bs as [|kv r IH]; cbn [getb map concat]; intros ND; [constructor|].
+  destruct (NoDup_app_inv _ _ ND) as (N1 & N2 & _). destruct (key_eqb k (fst kv)); auto.
+Qed.
+
+Lemma getb_disjoint k k' bs l : NoDup (locs_of bs) -> k <> k' -> In l (getb k bs) -> ~ In l (getb k' bs).
+Proof.
+  unfold locs_of. induction bs as [|kv r IH]; cbn [getb map concat]; intros ND Hne H; auto.
+  destruct (NoDup_app_inv _ _ ND) as (N1 & N2 & D).
+  destruct (key_eqb k (fst kv)) eqn:E, (key_eqb k' (fst kv)) eqn:E'.
+  - apply key_eqb_eq in E. apply key_eqb_eq in E'. congruence.
+  - intro H'. apply (D l H). apply (getb_incl k' r l H').
+  - intro H'. apply (D l H'). apply (getb_incl k r l H).
+  - apply IH; auto.
+Qed.
+
+Lemma getb_setb_other k k' v : forall bs, key_eqb k k' = false -> getb k (setb k' v bs) = getb k bs.
+Proof.
+  induction bs as [|kv r IH]; intros E; cbn [setb getb]; auto.
+  destruct (key_eqb k' (fst kv)) eqn:E1; cbn [getb fst snd].
+  - destruct (key_eqb k (fst kv)) eqn:E2; auto.
+    apply key_eqb_eq in E1. apply key_eqb_eq in E2. subst. rewrite key_eqb_refl in E. discriminate.
+  - rewrite IH; auto.
+Qed.
+
+Lemma wcopy_spec kd ks s a :
+  NoDup (agent_locs a) -> length (blk a kd) = length (blk a ks) ->
+  snd (wcopy kd ks (s, a)) = a /\
+  s_next (fst (wcopy kd ks (s, a))) = s_next s /\
+  map (rd (fst (wcopy kd ks (s, a)))) (blk a kd) = map (rd s) (blk a ks) /\
+  (forall l, ~ In l (blk a kd) -> rd (fst (wcopy kd ks (s, a))) l = rd s l).
+Proof.
+  intros ND HL. unfold wcopy, blk in *. cbn [fst snd]. rewrite HL, Nat.eqb_refl. cbn [fst snd].
+  split; auto. split; [apply write_copy_next|]. split.
+  - apply write_copy_content; auto. apply getb_NoDup. exact ND.
+  - intros l Hl. apply write_copy_frame; auto.
+Qed.
+
+Theorem clone_target_resynced_lemma idx s a e t :
+  r_hooks (a_reg a) = [HSync e t] -> e <> t -> bounded s (agent_locs a) ->
+  length (blk a (t, cEnc)) = length (blk a (e, cEnc)) ->
+  length (blk a (t, cHead)) = length (blk a (e, cHead)) ->
+  length (blk a (t, cBuf)) = length (blk a (e, cBuf)) ->
+  let r := clone_agent idx s a in
+  map (rd (fst r)) (blk (snd r) (t, cEnc)) = map (rd s) (blk a (e, cEnc)) /\
+  map (rd (fst r)) (blk (snd r) (t, cHead)) = map (rd s) (blk a (e, cHead)) /\
+  map (rd (fst r)) (blk (snd r) (t, cBuf)) = map (rd s) (blk a (e, cBuf)).
+Proof.
+  intros HH Hne B LE LH LB. cbn zeta. rewrite clone_agent_unfold.
+  destruct (copy_blocks_spec (a_blocks a) s) as (C1 & C2 & C3 & C4 & C5).
+  set (s1 := fst (copy_blocks s (a_blocks a))) in *.
+  set (bs := snd (copy_blocks s (a_blocks a))) in *.
+  set (a0 := with_blocks a bs).
+  assert (ND0 : NoDup (agent_locs a0)).
+  { unfold a0, agent_locs. cbn [with_blocks a_blocks]. fold (locs_of bs). rewrite C1. apply nseq_NoDup. }
+  assert (Hlen : forall k, length (blk a0 k) = length (blk a k)).
+  { intros k. unfold blk, a0. cbn [with_blocks a_blocks].
+    rewrite <- (map_length (rd s1) (getb k bs)), <- (map_length (rd s) (getb k (a_blocks a))).
+    f_equal. apply getb_parts; [exact C3|exact (C5 B)]. }
+  assert (Hcont : forall k, map (rd s1) (blk a0 k) = map (rd s) (blk a k)).
+  { intros k. unfold blk, a0. cbn [with_blocks a_blocks]. apply getb_parts; [exact C3|exact (C5 B)]. }
+  (* the hook on the copy: three in-place copies *)
+  assert (Hreg : a_reg a0 = a_reg a) by reflexivity.
+  fold a0. unfold clone_tail, run_hooks. cbn [snd]. rewrite Hreg, HH. cbn [map seqL fold_left run_hook].
+  cbn [snd].
+  rewrite !Hlen, LE, LH, LB, !Nat.eqb_refl. cbn [andb seqL fold_left].
+  destruct (wcopy_spec (t, cEnc) (e, cEnc) s1 a0 ND0) as (W1a & W1n & W1c & W1f); [rewrite !Hlen; auto|].
+  set (x1 := wcopy (t, cEnc) (e, cEnc) (s1, a0)) in *.
+  assert (E1 : x1 = (fst x1, a0)) by (rewrite <- W1a; destruct x1; reflexivity).
+  rewrite E1.
+  destruct (wcopy_spec (t, cHead) (e, cHead) (fst x1) a0 ND0) as (W2a & W2n & W2c & W2f); [rewrite !Hlen; auto|].
+  set (x2 := wcopy (t, cHead) (e, cHead) (fst x1, a0)) in *.
+  assert (E2 : x2 = (fst x2, a0)) by (rewrite <- W2a; destruct x2; reflexivity).
+  rewrite E2.
+  destruct (wcopy_spec (t, cBuf) (e, cBuf) (fst x2) a0 ND0) as (W3a & W3n & W3c & W3f); [rewrite !Hlen; auto|].
+  set (x3 := wcopy (t, cBuf) (e, cBuf) (fst x2, a0)) in *.
+  assert (E3 : x3 = (fst x3, a0)) by (rewrite <- W3a; destruct x3; reflexivity).
+  rewrite E3.
+  (* fix_refs, ext re-allocation, index: do not touch the network blocks *)
+  unfold pure, realloc. cbn [fst snd].
+  pose proof (alloc_frame (map CopyOf (blk a kExt)) (fst x3)) as HF.
+  destruct (alloc (fst x3) (map CopyOf (blk a kExt))) as [s4 ls]. cbn [fst snd] in *.
+  assert (Hb : forall c, c = cEnc \/ c = cHead \/ c = cBuf ->
+            blk (match idx with Some i => with_index (with_blocks (fix_refs a0) (setb kExt ls (a_blocks (fix_refs a0)))) i
+                          | None => with_blocks (fix_refs a0) (setb kExt ls (a_blocks (fix_refs a0))) end) (t, c) = blk a0 (t, c)).
+  { intros c Hc. unfold blk. destruct idx; cbn [with_index with_blocks a_blocks fix_refs with_opts];
+      apply getb_setb_other; destruct Hc as [ -> | [ -> | -> ] ]; unfold key_eqb; cbn [fst snd kExt]; apply andb_false_r. }
+  assert (Hnext : s_next (fst x3) = s_next s1) by (rewrite W3n, W2n, W1n; reflexivity).
+  assert (Hlt : forall k l, In l (blk a0 k) -> l < s_next (fst x3)).
+  { intros k l Hl. rewrite Hnext. unfold blk, a0 in Hl. cbn [with_blocks a_blocks] in Hl.
+    apply getb_incl in Hl. rewrite C1 in Hl. apply in_nseq in Hl. lia. }
+  assert (Dis : forall k k' l, k <> k' -> In l (blk a0 k) -> ~ In l (blk a0 k')).
+  { intros k k' l Hk Hl. unfold blk in *. apply (getb_disjoint k k' _ l ND0 Hk Hl). }
+  assert (Hs : forall c c' : N, ((t, c) : key) <> (e, c')) by (intros c c' H; injection H; intros; congruence).
+  split; [|split]; rewrite Hb by auto.
+  - transitivity (map (rd (fst x1)) (blk a0 (t, cEnc))).
+    + apply map_ext_in. intros l Hl. rewrite HF by (eapply Hlt; eauto).
+      rewrite W3f by (apply (Dis (t, cEnc) (t, cBuf) l); [discriminate|auto]).
+      apply W2f. apply (Dis (t, cEnc) (t, cHead) l); [discriminate|auto].
+    + rewrite W1c. apply Hcont.
+  - transitivity (map (rd (fst x2)) (blk a0 (t, cHead))).
+    + apply map_ext_in. intros l Hl. rewrite HF by (eapply Hlt; eauto).
+      apply W3f. apply (Dis (t, cHead) (t, cBuf) l); [discriminate|auto].
+    + rewrite W2c. rewrite <- Hcont. apply map_ext_in. intros l Hl.
+      apply W1f. apply (Dis (e, cHead) (t, cEnc) l); [intro H; apply (Hs cEnc cHead); symmetry; exact H|exact Hl].
+  - transitivity (map (rd (fst x3)) (blk a0 (t, cBuf))).
+    + apply map_ext_in. intros l Hl. apply HF. eapply Hlt; eauto.
+    + rewrite W3c. rewrite <- Hcont. apply map_ext_in. intros l Hl.
+      rewrite W2f by (apply (Dis (e, cBuf) (t, cHead) l); [intro H; apply (Hs cHead cBuf); symmetry; exact H|exact Hl]).
+      apply W1f. apply (Dis (e, cBuf) (t, cEnc) l); [intro H; apply (Hs cEnc cBuf); symmetry; exact H|exact Hl].
 Qed.
